@@ -13,36 +13,56 @@
 (*     numbers or tensors not requiring grad - never an error; zero or     *)
 (*     None for tensors the integrand does not use).                       *)
 (*                                                                         *)
+(* A tensor limit may be of lower precision than the integrand            *)
+(* ("tensor32_grad": a float32 tensor for a float64 integrand): the rule   *)
+(* is built in the integrand's precision all the same.  The integrand's    *)
+(* coefficient is passed as a tensor requiring grad, a plain tensor or a   *)
+(* python number; when no tensor requiring grad is passed there is no      *)
+(* parameter integral in the backward pass, only the limit terms.          *)
+(*                                                                         *)
 (* Deviation switches (TRUE = intended):                                   *)
 (*   BckForwarded   backward options reach the backward quadrature         *)
 (*   KindRemembered the backward pass remembers which limits were tensors  *)
 (*   AllowUnused    unused tensor parameters are tolerated                 *)
+(*   EmptyParamsOk  differentiable limits work without any tensor parameter*)
+(*   LimitsConverted tensor limits are converted to the integrand's dtype  *)
 (***************************************************************************)
 EXTENDS Naturals, Sequences, TLC
-CONSTANTS NFwd, NBck, NDefault, BckForwarded, KindRemembered, AllowUnused
-LimKinds == {"number", "tensor", "tensor_grad"}
-VARIABLES xlKind, xuKind, xlInf, xuInf, nGiven, bckGiven, hasUnused, pred
-vars == <<xlKind, xuKind, xlInf, xuInf, nGiven, bckGiven, hasUnused, pred>>
+CONSTANTS NFwd, NBck, NDefault, BckForwarded, KindRemembered, AllowUnused, EmptyParamsOk, LimitsConverted
+LimKinds == {"number", "tensor", "tensor_grad", "tensor32_grad"}
+ParamKinds == {"tensor_grad", "tensor", "number"}
+IsGrad(k) == k \in {"tensor_grad", "tensor32_grad"}
+VARIABLES xlKind, xuKind, xlInf, xuInf, nGiven, bckGiven, hasUnused, aKind, pred
+vars == <<xlKind, xuKind, xlInf, xuInf, nGiven, bckGiven, hasUnused, aKind, pred>>
 Nf == IF nGiven THEN NFwd ELSE NDefault
 NbIntended == IF bckGiven THEN NBck ELSE Nf
 Nb == IF BckForwarded THEN NbIntended ELSE NDefault
+HasTensorParams == aKind = "tensor_grad" \/ hasUnused      \* only tensors that require grad count as tensor parameters
+LimitTerms == (IF xlKind # "number" THEN 1 ELSE 0) + (IF xuKind # "number" THEN 1 ELSE 0)
 Predict ==
-   LET gl == xlKind = "tensor_grad"  gu == xuKind = "tensor_grad"
-       raises == (~KindRemembered /\ (xlKind = "number" \/ xuKind = "number")) \/ (~AllowUnused /\ hasUnused)
+   LET gl == IsGrad(xlKind)  gu == IsGrad(xuKind)
+       raises == \/ (~KindRemembered /\ (xlKind = "number" \/ xuKind = "number")) \/ (~AllowUnused /\ hasUnused)
+                 \/ (~EmptyParamsOk /\ ~HasTensorParams /\ (gl \/ gu))
    IN [transform |-> IF xlInf \/ xuInf THEN "tan" ELSE "none",
        fwdEvals |-> 1 + Nf,
+       rulePrec |-> IF LimitsConverted \/ "tensor32_grad" \notin {xlKind, xuKind} THEN "integrand" ELSE "limits",
+       needsBwd |-> gl \/ gu \/ aKind = "tensor_grad" \/ hasUnused,
        bwdOk |-> ~raises,
-       bwdEvals |-> (IF xlKind # "number" THEN 1 ELSE 0) + (IF xuKind # "number" THEN 1 ELSE 0) + 1 + Nb,
-       gradXl |-> gl, gradXu |-> gu,
+       bwdEvals |-> LimitTerms + (IF HasTensorParams THEN 1 + Nb ELSE 0),               \* as implemented: every tensor limit, every tensor parameter
+       bwdEvalsMin |-> (IF gl THEN 1 ELSE 0) + (IF gu THEN 1 ELSE 0)                     \* what the gradients asked for cannot do without
+                       + (IF aKind = "tensor_grad" \/ hasUnused THEN 1 + Nb ELSE 0),
+       gradXl |-> gl, gradXu |-> gu, gradA |-> aKind = "tensor_grad",
        gradUnused |-> "zero_or_none"]
 Init == /\ xlKind \in LimKinds /\ xuKind \in LimKinds /\ xlInf \in BOOLEAN /\ xuInf \in BOOLEAN
-        /\ nGiven \in BOOLEAN /\ bckGiven \in BOOLEAN /\ hasUnused \in BOOLEAN
+        /\ nGiven \in BOOLEAN /\ bckGiven \in BOOLEAN /\ hasUnused \in BOOLEAN /\ aKind \in ParamKinds
         /\ pred = Predict
 Next == UNCHANGED vars
 Spec == Init /\ [][Next]_vars
 \* differentiation works for every accepted form of the limits and with unused tensors
 NeverRaises == pred.bwdOk
 \* the backward quadrature uses the backward options when given, else the forward ones
-BackwardRule == pred.bwdEvals = (IF xlKind # "number" THEN 1 ELSE 0) + (IF xuKind # "number" THEN 1 ELSE 0) + 1 + NbIntended
-LimitsGetGradIffRequired == pred.gradXl = (xlKind = "tensor_grad") /\ pred.gradXu = (xuKind = "tensor_grad")
+BackwardRule == pred.bwdEvals = LimitTerms + (IF HasTensorParams THEN 1 + NbIntended ELSE 0)
+LimitsGetGradIffRequired == pred.gradXl = IsGrad(xlKind) /\ pred.gradXu = IsGrad(xuKind)
+\* the nodes and weights are those of the integrand's precision whatever the precision of the limits
+RuleInIntegrandPrecision == pred.rulePrec = "integrand"
 =============================================================================
